@@ -42,6 +42,16 @@ CLAIMED = {
   note="Does not decide panics inside protobuf/snappy, semantic equality of decoded expressions, or allocation on the client side of a stream beyond the uint32 frame length. CHA call graph over the loaded packages; reflection not followed.",
   technique="static analysis: wire-length guard dataflow with decomposed branch conditions, registry/case-set agreement, codec field agreement, call-graph closure panic classification",
   ref="§4 C15"),
+ "C08": dict(
+  text="Structural clauses of point routing: every write-path selector of a shard group by timestamp depends on DeletedAt/TruncatedAt and the metadata selector, clipping and truncation predicates equal their specification on every weak ordering of their operands; Covers(t) is ShardGroupAt(t) != nil; the shard is a function of the canonical series key alone (HashID reads only point.key, ShardFor = HashID % len(Shards), frozen table of key writers, tag sort covers all tags); per-iteration path counting shows every point is mapped or dropped exactly once, dropped only without a group, and a missing group fails the request; the retention cut-off is now-Duration for finite policies.",
+  note="Does not decide agreement between nodes' metadata caches at write time or properties of the hash function. One observed behaviour is not claimed: a too-old point is written (not dropped) when a group covering it is already in the per-request list.",
+  technique="static analysis: field-dependency closure, exhaustive predicate truth tables, loop-iteration path counting, marked path exploration",
+  ref="§4 C08"),
+ "C17": dict(
+  text="Structural clauses of retention enforcement: DeleteShard only on a hit in a map whose every store derives (through the range statements) from DeletedShardGroups() or from ExpiredShardGroups(now) after DeleteShardGroup returned nil; both listings consulted for every policy on every pass; the condition under which a group is selected as expired/deleted (computed as a path condition, independent of code arrangement) equals its specification on all orderings and stays within time.Time comparisons; frozen table of DeleteShard call sites; every pass prunes and no error aborts a pass; write-time cut-off and never-drop-inside-retention shared with C08.",
+  note="Does not decide liveness of the ticker ('eventually') or clock behaviour.",
+  technique="static analysis: map-store provenance through range statements, outcome facts, path-condition compilation + exhaustive ordering evaluation, who-may-call table",
+  ref="§4 C17"),
 }
 
 NA = {
